@@ -4,7 +4,7 @@ ID = "C03"
 CRATE = "c03"
 COQ_DIR = "C03"
 COQ_DEPS = []
-PROFILES = ["debug"]
+PROFILES = ["debug", "release"]
 CORR_IMPORT = "From RlibV Require Import C03.Model C03.Corr.\nOpen Scope Z_scope."
 AUDIT_IMPORT = ("From Coq Require Import ZArith List Bool.\nImport ListNotations.\n"
                 "From RlibV Require Import C03.Model C03.Corr C03.Proofs C03.ProofsInst C03.Properties.\nOpen Scope Z_scope.")
